@@ -183,3 +183,38 @@ Proof.
   apply Forall_nil.
 Qed.
 Local Close Scope Z_scope.
+
+(** the same census for the compile-time 2-D view class (Padding = F0*N + F1) and the dynamic 1-D view class *)
+Local Open Scope Z_scope.
+Definition site1d_ok (f s i j : Z) (site : nat * bool * Z * Z) : Prop :=
+  let '(kind, unit_step, e1, e2) := site in
+  match kind with
+  | 0%nat => unit_step = true /\ e1 = f + i                      (* contiguous vector address, unit step only *)
+  | 1%nat => e1 = f + i * s /\ e2 = s                            (* scattered store *)
+  | _ => e1 = f + i * s \/ e1 = f + (i + j) * s \/ (unit_step = true /\ e1 = f + i)     (* scalar store of element i, or of lane j of the vector starting at i *)
+  end.
+Lemma gen_fixedview2d_write_sites_ok F0 S0 F1 S1 N i j :
+  Forall (site_ok F0 S0 F1 S1 N i j) (gen_fixedview2d_write_sites F0 S0 F1 S1 N i j) /\
+  (40 <= length (gen_fixedview2d_write_sites F0 S0 F1 S1 N i j))%nat.
+Proof.
+  split; [|unfold gen_fixedview2d_write_sites; simpl; lia].
+  unfold gen_fixedview2d_write_sites.
+  repeat (apply Forall_cons; [unfold site_ok; first [ split; [reflexivity | ring]
+                                                    | split; [ring | reflexivity]
+                                                    | split; [ring | left; ring]
+                                                    | split; [ring | right; split; [reflexivity | ring]] ] |]).
+  apply Forall_nil.
+Qed.
+Lemma gen_view1d_write_sites_ok f s i j :
+  Forall (site1d_ok f s i j) (gen_view1d_write_sites f s i j) /\ (30 <= length (gen_view1d_write_sites f s i j))%nat.
+Proof.
+  split; [|unfold gen_view1d_write_sites; simpl; lia].
+  unfold gen_view1d_write_sites.
+  repeat (apply Forall_cons; [unfold site1d_ok; first [ split; [reflexivity | ring]
+                                                      | split; [ring | reflexivity]
+                                                      | left; ring
+                                                      | right; left; ring
+                                                      | right; right; split; [reflexivity | ring] ] |]).
+  apply Forall_nil.
+Qed.
+Local Close Scope Z_scope.
